@@ -1,4 +1,4 @@
-import PilotaModel.Lemmas.PbUnknown
+import PilotaModel.Lemmas.PbInterleave
 import PilotaModel.Props.C05
 /-
   C18 — protobuf merge semantics: concatenation, last-wins, unknown fields ignored.
@@ -84,11 +84,24 @@ theorem unknown_ignored_top (s : Schema) (i : Nat) (m : Slots) (a b : Bytes) (ta
   | panic e => simp [hl, Out.isOk] at ha
   | fuel => simp [hl, Out.isOk] at ha
 
-/- Not proved (`interleave`): any interleaving of the records of `encode x` and `encode y` that
-keeps each field's records in order decodes to `mergeVal x y`.  The record-level commutation
-(records of different fields act on different slots, `Lemmas/PbLoop.lean: sim_slot,
-mergeFieldWith_pre`) is in place; the permutation argument over record lists is not done.
-T1 exercises it (`pbilv`). -/
+/-- **interleave**: every interleaving of the records of `encode x` and `encode y` in which each struct
+field's records keep their order (picked out by field number(s) — a oneof counts as one field — they
+are x's records followed by y's) decodes to `mergeVal x y`.  `Interleaved` says exactly that;
+`recsSlot` are the records pilota's encoder writes for a field. -/
+theorem interleave (s : Schema) (hs : WFSchema s = true) (flag : Bool) (i : Nat) (x y : Slots) (rs : List Spec.Rec)
+    (hx : HasType s flag i x) (hy : HasType s flag i y) (hi : Interleaved s flag (decls s i) x y rs) :
+    decode s i (Spec.flat rs) = .ok (mergeVal s i x y) :=
+  decode_interleaved s flag hs i x y rs hx hy hi
+
+/-- the plain concatenation `encode x ++ encode y` is one of these interleavings (so `decode_concat`
+is an instance), and its bytes are the concatenated records. -/
+theorem concat_is_interleaving (s : Schema) (hs : WFSchema s = true) (flag : Bool) (i : Nat) (x y : Slots)
+    (hx : HasType s flag i x) (hy : HasType s flag i y) :
+    Interleaved s flag (decls s i) x y (recsSlots s flag (decls s i) x ++ recsSlots s flag (decls s i) y) ∧
+    Spec.flat (recsSlots s flag (decls s i) x ++ recsSlots s flag (decls s i) y) = encode s flag i x ++ encode s flag i y := by
+  refine ⟨concat_interleaved s flag (decls s i) x y (decls_wf s hs i).2 (okSlots_shape s flag _ x hx.1) (okSlots_shape s flag _ y hy.1), ?_⟩
+  rw [flat_append, flat_recsSlots s flag hs _ x hx.1, flat_recsSlots s flag hs _ y hy.1]
+  rfl
 
 /-! non-vacuity: unknown records of every wire type, a group with a nested group and a varint. -/
 example : skipField recursionLimit .varint 9 [0x96, 0x01] = .ok [] := by rfl
